@@ -241,14 +241,6 @@ theorem decRepeat_le (f : Bytes → Dec (Value × Bytes)) (hf : Consumes f 0) :
     | err e => simp [hfb] at h
     | panic p => simp [hfb] at h
 
-/-- `bind`-inversion -/
-theorem bind_ok {ε α β : Type} (x : Outcome ε α) (f : α → Outcome ε β) (b : β)
-    (h : x.bind f = .ok b) : ∃ a, x = .ok a ∧ f a = .ok b := by
-  cases x with
-  | ok a => exact ⟨a, rfl, h⟩
-  | err e => simp [Outcome.bind] at h
-  | panic p => simp [Outcome.bind] at h
-
 theorem zeroElem_le (m : Mode) (el : Bytes → Dec (Value × Bytes)) (n : Nat) (hz : Hazard) (sp : Bytes)
     (vs : List Value) (r : Bytes) (h : zeroElem m el n hz sp = .ok (vs, r)) : r.length ≤ sp.length := by
   unfold zeroElem at h
